@@ -208,12 +208,27 @@ func serializeDatetimeFromUnixNano(buf *bytes.Buffer, t int64) {
 
 func serializeString(buf *bytes.Buffer, s string) {
 	buf.Write([]byte{91, 83, 93})
-	buf.WriteString(strings.ToUpper(option.TrimSpace(s)))
+	writeEscapedKeyString(buf, strings.ToUpper(option.TrimSpace(s)))
 }
 
 func serializeCaseSensitiveString(buf *bytes.Buffer, s string) {
 	buf.Write([]byte{91, 83, 93})
-	buf.WriteString(option.TrimSpace(s))
+	writeEscapedKeyString(buf, option.TrimSpace(s))
+}
+
+// writeEscapedKeyString escapes the key separator inside a string so that the
+// concatenation of several keys cannot be read in two ways.
+func writeEscapedKeyString(buf *bytes.Buffer, s string) {
+	if !strings.ContainsAny(s, ":\\") {
+		buf.WriteString(s)
+		return
+	}
+	for i := 0; i < len(s); i++ {
+		if s[i] == ':' || s[i] == '\\' {
+			buf.WriteByte('\\')
+		}
+		buf.WriteByte(s[i])
+	}
 }
 
 func serializeBoolean(buf *bytes.Buffer, b bool) {
